@@ -53,7 +53,7 @@ def Scalars.isSeq : Scalars → Bool
 
 /-- classes without a mutable variant -/
 def Scalars.alwaysImm : Scalars → Bool
-  | .inwit _ | .wit | .header _ | .block _ => true
+  | .inwit _ | .wit | .header _ | .block _ | .seq .stacks | .seq .txs => true
   | _ => false
 
 structure Obj where
@@ -69,6 +69,17 @@ abbrev Heap := List Obj
 /-- fuel for graph traversals: block → tuple → tx → tuple → txin → outpoint is 6 objects deep -/
 def D : Nat := 8
 
+/-- `List.mapM` in `Option`, written out so that it unfolds definitionally -/
+def mapO {α β : Type} (f : α → Option β) : List α → Option (List β)
+  | [] => some []
+  | a :: as =>
+    match f a with
+    | none => none
+    | some b =>
+      match mapO f as with
+      | none => none
+      | some bs => some (b :: bs)
+
 /-! ### reading the object graph -/
 
 /-- the object graph below an address, unfolded into a tree that remembers addresses and flags -/
@@ -81,7 +92,7 @@ def unfoldA : Nat → Heap → Addr → Option ATree
   | f + 1, h, a =>
     match h[a]? with
     | none => none
-    | some o => (o.refs.mapM (unfoldA f h)).map (ATree.node a o.isMut o.sc)
+    | some o => (mapO (unfoldA f h) o.refs).map (ATree.node a o.isMut o.sc)
 
 def asTxIn : Val → Option TxIn | .txin i => some i | _ => none
 def asTxOut : Val → Option TxOut | .txout i => some i | _ => none
@@ -93,10 +104,10 @@ def assemble : Scalars → List Val → Option Val
   | .outpoint h n, [] => some (.outpoint ⟨h, n⟩)
   | .txin s q, [.outpoint o] => some (.txin ⟨o, s, q⟩)
   | .txout v s, [] => some (.txout ⟨v, s⟩)
-  | .seq .ins, vs => (vs.mapM asTxIn).map .ins
-  | .seq .outs, vs => (vs.mapM asTxOut).map .outs
-  | .seq .stacks, vs => (vs.mapM asStack).map .stacks
-  | .seq .txs, vs => (vs.mapM asTx).map .txs
+  | .seq .ins, vs => (mapO asTxIn vs).map .ins
+  | .seq .outs, vs => (mapO asTxOut vs).map .outs
+  | .seq .stacks, vs => (mapO asStack vs).map .stacks
+  | .seq .txs, vs => (mapO asTx vs).map .txs
   | .inwit st, [] => some (.inwit st)
   | .wit, [.stacks w] => some (.wit w)
   | .tx ver lock, [.ins vin, .outs vout, .wit w] =>
@@ -110,10 +121,13 @@ def decode : ATree → Option Val
   | .node _ _ sc kids => (decodeL kids).bind (assemble sc)
 def decodeL : List ATree → Option (List Val)
   | [] => some []
-  | t :: ts => do
-      let v ← decode t
-      let vs ← decodeL ts
-      pure (v :: vs)
+  | t :: ts =>
+    match decode t with
+    | none => none
+    | some v =>
+      match decodeL ts with
+      | none => none
+      | some vs => some (v :: vs)
 end
 
 /-- the current field values of the object at `a` (what `stream_serialize` walks over) -/
@@ -164,7 +178,7 @@ def planClone (tm : Bool) : Nat → Heap → Addr → Option Plan
     | none => none
     | some o =>
       if !o.sc.isSeq && !o.isMut && (!tm || o.sc.alwaysImm) then some (.ref a)
-      else (o.refs.mapM (planClone tm f h)).map (Plan.node tm o.sc)
+      else (mapO (planClone tm f h) o.refs).map (Plan.node tm o.sc)
 
 def planOutPoint (m : Bool) (o : OutPoint) : Plan := .node m (.outpoint o.hash o.n) []
 def planTxIn (m : Bool) (i : TxIn) : Plan :=
@@ -431,10 +445,10 @@ def step (s : St) : Op → St × Out
         (s.bind h (some a), .created)
       else (s.skip, .err assertionError)
   | .newBlock hdr txs =>
-      match txs.mapM s.root with
+      match mapO s.root txs with
       | none => (s.skip, .badRef)
       | some addrs =>
-        match addrs.mapM (entryAt s.heap) with
+        match mapO (entryAt s.heap) addrs with
         | none => (s.skip, .badRef)
         | some es =>
           match newBlockVal hdr es with
@@ -442,7 +456,7 @@ def step (s : St) : Op → St × Out
           | .ok b =>
             -- build_witness_merkle_tree_from_txs: `tx.GetHash()` memoises on the immutable ones
             let h1 := fillHashes s.heap addrs
-            match addrs.mapM (planClone false D h1) with
+            match mapO (planClone false D h1) addrs with
             | none => (s.skip, .badRef)
             | some plans =>
               let (h2, a) := allocPlan h1 (.node false (.block b.hdr) [.node false (.seq .txs) plans])
